@@ -25,6 +25,10 @@ DIRS = np.array(
     dtype=np.float64,
 )  # fmt: skip
 
+DERIVED = [
+    "triangles", "triangles_cross", "triangles_center", "area_faces", "face_normals", "face_angles", "edges", "edges_sorted",
+    "edges_face", "edges_unique", "face_adjacency", "vertex_normals", "vertex_degree", "referenced_vertices", "area",
+]  # fmt: skip
 DUP_MODES = ["exact", "within", "straddle", "outside"]
 UV_SHIFTS = [(1.0, 0.0), (-1.0, 0.0), (0.0, 1.0), (2.0, 0.0), (1.0, 1.0), (3.0, -2.0)]
 
@@ -333,6 +337,8 @@ def attach_spec(draw):
         # painted_*: no colours assigned; the lazily created default colour array is edited in place
         "visual": draw(st.sampled_from(["face", "vertex", "texture", "none", "face", "vertex", "texture", "painted_vertex", "painted_face"])),
         "paint_read": draw(st.booleans()),
+        # derived values read (and so cached) before the operation
+        "derived": draw(st.one_of(st.just([]), st.lists(st.sampled_from(DERIVED), min_size=1, max_size=4, unique=True))),
         "fattr": draw(st.booleans()),
         "vattr": draw(st.booleans()),
         "fnorm": draw(st.booleans()),
